@@ -733,6 +733,9 @@ class PyvalColorizer:
     def _colorize_ast_re(self, node:ast.Call, state: _ColorizerState) -> None:
         
         try:
+            if any(kw.arg is None for kw in node.keywords):
+                # Arguments passed with '**kwargs' are not bound (and would be dropped).
+                raise TypeError()
             # Can raise TypeError
             args = bind_args(self.RE_COMPILE_SIGNATURE, node)
         except TypeError:
